@@ -70,7 +70,7 @@ func TestC07e2e(t *testing.T) {
 	col := evd.New("C07", cfg)
 	defer col.Flush()
 	n := cfg.N(24, 800)
-	var pairs, unspec int64
+	var pairs, unspec, dlPairs int64
 	for i := 0; i < n; i++ {
 		seed := cfg.CaseSeed("C07e2e", i)
 		if !cfg.Want(i, seed) {
@@ -137,11 +137,79 @@ func TestC07e2e(t *testing.T) {
 				}
 				col.Case(evd.FP("e2e", filters[s].String(), seed), true)
 			}
+			// the same semantics on the other routing path: messages forwarded to a
+			// dead-letter topic are routed to its filtered subscriptions by their
+			// original attributes
+			dead := "projects/p/topics/dead"
+			if _, err := e.Pub.CreateTopic(e.Ctx, &pubsubpb.Topic{Name: dead}); err != nil {
+				t.Fatalf("create dead topic: %v", err)
+			}
+			const ndl = 6
+			dlFilters := make([]*ref.Node, ndl)
+			for s := 0; s < ndl; s++ {
+				dlFilters[s] = e2eAST(r, r.Intn(3))
+				if _, err := e.Sub.CreateSubscription(e.Ctx, &pubsubpb.Subscription{Name: fmt.Sprintf("projects/p/subscriptions/d%d", s), Topic: dead, Filter: dlFilters[s].String()}); err != nil {
+					dlFilters[s] = nil
+				}
+			}
+			src := "projects/p/subscriptions/src"
+			if _, err := e.Sub.CreateSubscription(e.Ctx, &pubsubpb.Subscription{Name: src, Topic: topic, DeadLetterPolicy: &pubsubpb.DeadLetterPolicy{DeadLetterTopic: dead, MaxDeliveryAttempts: 1}}); err != nil {
+				t.Fatalf("create src: %v", err)
+			}
+			resp2, err := e.Pub.Publish(e.Ctx, req)
+			if err != nil {
+				t.Fatalf("publish 2: %v", err)
+			}
+			idx2 := map[string]int{}
+			for m, id := range resp2.MessageIds {
+				idx2[id] = m
+			}
+			pr, err := e.Sub.Pull(e.Ctx, &pubsubpb.PullRequest{Subscription: src, MaxMessages: 100, ReturnImmediately: true})
+			if err != nil || len(pr.ReceivedMessages) != nmsgs {
+				t.Fatalf("pull src: %v (%d messages)", err, len(pr.ReceivedMessages))
+			}
+			var ackIDs []string
+			for _, rm := range pr.ReceivedMessages {
+				ackIDs = append(ackIDs, rm.AckId)
+			}
+			// nack: the one allowed delivery is used up, the next pull forwards them
+			if _, err := e.Sub.ModifyAckDeadline(e.Ctx, &pubsubpb.ModifyAckDeadlineRequest{Subscription: src, AckIds: ackIDs, AckDeadlineSeconds: 0}); err != nil {
+				t.Fatalf("nack: %v", err)
+			}
+			if pr, err := e.Sub.Pull(e.Ctx, &pubsubpb.PullRequest{Subscription: src, MaxMessages: 100, ReturnImmediately: true}); err != nil || len(pr.ReceivedMessages) != 0 {
+				t.Fatalf("pull src after nack: %v (%d messages, expected dead-lettering)", err, len(pr.GetReceivedMessages()))
+			}
+			for s := 0; s < ndl; s++ {
+				if dlFilters[s] == nil {
+					continue
+				}
+				pr, err := e.Sub.Pull(e.Ctx, &pubsubpb.PullRequest{Subscription: fmt.Sprintf("projects/p/subscriptions/d%d", s), MaxMessages: 100, ReturnImmediately: true})
+				if err != nil {
+					t.Fatalf("pull dl: %v", err)
+				}
+				got := map[int]bool{}
+				for _, rm := range pr.ReceivedMessages {
+					got[idx2[rm.Message.MessageId]] = true
+				}
+				for m := 0; m < nmsgs; m++ {
+					want := dlFilters[s].Eval(attrs[m])
+					if want == ref.Unspec {
+						unspec++
+						continue
+					}
+					dlPairs++
+					if got[m] != (want == ref.True) {
+						col.Violation("routing-of-dead-letter:"+fmt.Sprint(want), fmt.Sprintf("dead-letter subscription with filter %q: forwarded message with attributes %v delivered=%v, documented semantics say %v", dlFilters[s].String(), attrs[m], got[m], want), map[string]any{"case_seed": seed, "filter": dlFilters[s].String(), "attrs": attrs[m]})
+					}
+				}
+				col.Case(evd.FP("e2e-dl", dlFilters[s].String(), seed), true)
+			}
 		})
 	}
 	col.Add("ev_e2e_routing_pairs_compared", pairs)
 	col.Add("ev_e2e_routing_pairs_unspecified", unspec)
-	col.Add("relevant_events", pairs)
+	col.Add("ev_e2e_dead_letter_routing_pairs_compared", dlPairs)
+	col.Add("relevant_events", pairs+dlPairs)
 }
 
 var rpcVocab = []ref.Tok{
@@ -179,6 +247,10 @@ func TestC08rpc(t *testing.T) {
 			keepFilter := `attributes:keep`
 			if _, err := e.Sub.CreateSubscription(e.Ctx, &pubsubpb.Subscription{Name: keep, Topic: topic, Filter: keepFilter}); err != nil {
 				t.Fatalf("create keep: %v", err)
+			}
+			bare := "projects/p/subscriptions/bare"
+			if _, err := e.Sub.CreateSubscription(e.Ctx, &pubsubpb.Subscription{Name: bare, Topic: topic}); err != nil {
+				t.Fatalf("create bare: %v", err)
 			}
 			for k := 0; k < 60; k++ {
 				toks := e2eAST(r, r.Intn(3)).Tokens()
@@ -227,6 +299,28 @@ func TestC08rpc(t *testing.T) {
 				}
 				if uerr == nil {
 					keepFilter = text
+				}
+				// and on a subscription that has no filter at the moment (created
+				// without one, or cleared by the previous round)
+				_, berr := e.Sub.UpdateSubscription(e.Ctx, &pubsubpb.UpdateSubscriptionRequest{Subscription: &pubsubpb.Subscription{Name: bare, Filter: text}, UpdateMask: &fieldmaskpb.FieldMask{Paths: []string{"filter"}}})
+				bg, _ := e.Sub.GetSubscription(e.Ctx, &pubsubpb.GetSubscriptionRequest{Subscription: bare})
+				switch {
+				case want && berr != nil:
+					col.Violation("rpc-update-rejects-sentence:unfiltered", fmt.Sprintf("UpdateSubscription of an unfiltered subscription rejected the sentence %q: %v", text, berr), map[string]any{"filter": text})
+				case !want && berr == nil:
+					col.Violation("rpc-update-accepts-non-sentence:unfiltered", fmt.Sprintf("UpdateSubscription of an unfiltered subscription accepted %q which is not a sentence", text), map[string]any{"filter": text})
+				case berr != nil && bg.GetFilter() != "":
+					col.Violation("rejected-filter-stored", fmt.Sprintf("UpdateSubscription rejected %q but the unfiltered subscription now has filter %q", text, bg.GetFilter()), map[string]any{"filter": text})
+				case berr == nil && bg.GetFilter() != text:
+					col.Violation("accepted-filter-not-stored", fmt.Sprintf("UpdateSubscription accepted %q but Get returns %q", text, bg.GetFilter()), map[string]any{"filter": text})
+				}
+				if bg.GetFilter() != "" {
+					// back to unfiltered for the next round
+					if _, cerr := e.Sub.UpdateSubscription(e.Ctx, &pubsubpb.UpdateSubscriptionRequest{Subscription: &pubsubpb.Subscription{Name: bare}, UpdateMask: &fieldmaskpb.FieldMask{Paths: []string{"filter"}}}); cerr != nil {
+						col.Violation("rpc-update-cannot-clear-filter", fmt.Sprintf("clearing the filter %q failed: %v", bg.GetFilter(), cerr), nil)
+					} else if cg, _ := e.Sub.GetSubscription(e.Ctx, &pubsubpb.GetSubscriptionRequest{Subscription: bare}); cg.GetFilter() != "" {
+						col.Violation("rpc-update-cannot-clear-filter", fmt.Sprintf("after clearing, Get still returns filter %q", cg.GetFilter()), nil)
+					}
 				}
 				if want {
 					accepted++
